@@ -23,7 +23,8 @@ RULE = ("network level: every well-posed network of the listed levels (all 7 kin
         "and DC mode; time domain: every base circuit x source mix (1..2 sources) of the C09 alphabet x two w_max at 25 instants; "
         "transient: every non-degenerate RLC circuit of the small levels x two input shapes at every sample; judged on the "
         "library's own separately queried V, I and P; states = distinct (description, mode) judged, transitions = solutions "
-        "judged; non-trivial = a solution with non-zero power somewhere")
+        "judged; non-trivial = a solution with non-zero power somewhere"
+        ' Additions: small-signal source kinds; spectral power lines (one- and two-sided, w != 0) of FrequencyDomainSolution; instants before t = 0.')
 ASSUMPTIONS = ["numpy accuracy on the palettes", "powers are compared on the natural scale S_v*S_i of each solution"]
 EXPLANATION = "direct exploration of get_power on network, DC, complex, time-domain and transient solutions"
 
